@@ -448,7 +448,7 @@ class WebSocketApp:
                 data = frame.data
                 if op_code == ABNF.OPCODE_TEXT and not skip_utf8_validation:
                     data = data.decode("utf-8")
-                self._callback(self.on_data, data, frame.opcode, True)
+                self._callback(self.on_data, data, op_code, True)
                 self._callback(self.on_message, data)
 
             return True
